@@ -139,12 +139,15 @@ impl<'input, E> Iterator for Matcher<'input, '_, E> {
             self.text = remaining;
             self.consumed = end_offset;
 
+            // A zero-length longest match makes no progress: report it as an invalid token
+            // (for skip and non-skip patterns alike) instead of yielding empty tokens forever.
+            if longest_match == 0 {
+                return Some(Err(ParseError::InvalidToken {
+                    location: start_offset,
+                }));
+            }
+
             if self.skip_vec[index] {
-                if longest_match == 0 {
-                    return Some(Err(ParseError::InvalidToken {
-                        location: start_offset,
-                    }));
-                }
                 continue;
             }
 
